@@ -21,6 +21,7 @@ type c13Case struct {
 	GitHub  bool       `json:"github"`
 	Lane    string     `json:"lane"`
 	Others  []c13Other `json:"others,omitempty"` // further test files in the same tree (state must not carry over between files)
+	Link    bool       `json:"link,omitempty"`   // the test file is a symbolic link to a file elsewhere below the root
 }
 
 type c13Other struct {
@@ -166,6 +167,7 @@ func c13Gen(r *rand.Rand, lane string) *c13Case {
 	c := &c13Case{Rule: rule, Ext: core.Pick(r, ".yaml", ".yaml", ".yml"), Content: s, Lane: mode}
 	c.All = core.Chance(r, 1, 4)
 	c.GitHub = core.Chance(r, 1, 5)
+	c.Link = core.Chance(r, 1, 10)
 	return c
 }
 
@@ -204,6 +206,16 @@ func c13Check(env *core.Env, cc core.Case) core.Verdict {
 	rel := filepath.Join("tests", "regression", "tests", "REQUEST-"+c.Rule[:3]+"-TESTS", c.Rule+c.Ext)
 	other := filepath.Join("tests", "regression", "tests", "REQUEST-"+c.Rule[:3]+"-TESTS", "README.md")
 	tree := sut.Tree{rel: c.Content, other: "test_id: 9\n- test_title: x\n\n\n"}
+	linkTarget := ""
+	if c.Link {
+		// the file is reached through a link whose text is much shorter than the file; it is rewritten through the link
+		linkTarget = filepath.Join("tests", "shared", "r"+c.Ext)
+		tree[linkTarget] = c.Content
+		tree[rel] = sut.SymlinkPrefix + "../../../shared/r" + c.Ext
+	}
+	// files in the working directory that carry the name of the argument are not what the argument means
+	tree[c.Rule] = "  - test_id: 9\n    test_title: x\n\n\n"
+	tree[c.Rule+c.Ext] = "  - test_id: 9\n    test_title: x\n\n\n"
 	// hidden entries next to the test files must neither be touched nor stop the walk
 	tree[filepath.Join(filepath.Dir(rel), ".gitkeep")] = ""
 	tree[filepath.Join(filepath.Dir(rel), ".DS_Store")] = "test_id: 3\n"
@@ -286,7 +298,7 @@ func c13Check(env *core.Env, cc core.Case) core.Verdict {
 	}
 	after := sut.Snap(root)
 	for _, d := range sut.Diff(before, after) {
-		if _, isOther := otherRel[d[1:]]; d != "~"+rel && !(c.All && isOther && d[0] == '~') {
+		if _, isOther := otherRel[d[1:]]; d != "~"+rel && !(c.Link && d == "~"+linkTarget) && !(c.All && isOther && d[0] == '~') {
 			return core.Viol("touches-other-file", "renumber-tests changed %s", d)
 		}
 	}
@@ -318,7 +330,7 @@ func init() {
 	register(&core.Property{
 		ID:    "C13",
 		Level: "exploration",
-		Rule: "generated ftw-style YAML test files (0..12 tests; lanes id-only, title-only, both, both reversed, mixed; odd id values; payload lines with bytes that are not valid UTF-8; CRLF; missing/extra final newlines, trailing white-space lines; .yaml/.yml; single rule argument or --all; text or github output) are run through the built CLI: --check, renumber, renumber again, --check. " +
+		Rule: "generated ftw-style YAML test files (0..12 tests; lanes id-only, title-only, both, both reversed, mixed; odd id values; payload lines with bytes that are not valid UTF-8; CRLF; missing/extra final newlines, trailing white-space lines; .yaml/.yml; single rule argument or --all; text or github output; one file in ten reached through a symbolic link; files named like the argument in the working directory) are run through the built CLI: --check, renumber, renumber again, --check. " +
 			"Oracle: independent line model (n-th test_id -> n, n-th test_title -> <rule>-n, other line content equal, trailing blank lines removed, one final newline), byte comparison, snapshot of the whole tree. Non-trivial = file with >= 2 numbered fields; distinct by case hash. Domain: every file has at least one non-blank line; each line carries at most one of the two keys, written 'key:<space|tab>value'.",
 		Cases: func(env *core.Env, rng *rand.Rand) []core.Case {
 			n := env.N(1500, 15000)
